@@ -17,6 +17,9 @@ pub struct Case {
     pub alphabet: Vec<String>,
     pub n: usize,
     pub text: Option<String>,
+    /// C14 parser reuse: the text parsed first with the same parser object
+    #[serde(default)]
+    pub reuse_first: Option<String>,
 }
 
 fn vio(class: &str, what: String, case: &Case, text: Option<&str>, detail: Value) -> Violation {
@@ -171,10 +174,10 @@ fn fmt_norm(v: &[Norm], text: &str) -> String {
 // ---------------------------------------------------------------------------------------------
 
 fn t(par: &str, regex: &str) -> TermSpec {
-    TermSpec { par: par.into(), regex: regex.into(), la: None, states: vec![0] }
+    TermSpec { par: par.into(), regex: regex.into(), la: None, states: vec![0], more: vec![] }
 }
 fn tla(par: &str, regex: &str, pos: bool, lpar: &str, lregex: &str) -> TermSpec {
-    TermSpec { par: par.into(), regex: regex.into(), la: Some((pos, lpar.into(), lregex.into())), states: vec![0] }
+    TermSpec { par: par.into(), regex: regex.into(), la: Some((pos, lpar.into(), lregex.into())), states: vec![0], more: vec![] }
 }
 
 fn term_menu() -> Vec<TermSpec> {
@@ -270,6 +273,33 @@ fn multi_state_cfgs(lalr: bool) -> Vec<ScanCfg> {
                 }
                 out.push(ScanCfg { terms, modes: vec![m0, m1], lalr, raw_comment_literals: true, body: None });
             }
+        }
+    }
+    // the same terminal in several occurrences with different state lists: parol accumulates the states
+    // of all occurrences (every order of two lists that overlap, contain each other, or are disjoint)
+    let lists: Vec<Vec<usize>> = vec![vec![0], vec![1], vec![0, 1], vec![2], vec![0, 2], vec![1, 2], vec![0, 1, 2]];
+    for (i1, l1) in lists.iter().enumerate() {
+        for (i2, l2) in lists.iter().enumerate() {
+            // (the scanner is generated the same way for both grammar types: LALR gets every other pair)
+            if l1 == l2 || (lalr && (i1 + i2) % 2 == 0) {
+                continue;
+            }
+            let mut ta = a(l1.clone());
+            ta.more = vec![l2.clone()];
+            // b everywhere: switches INITIAL -> X -> Y -> INITIAL, so every state is visited
+            let tb = b(vec![0, 1, 2]);
+            // the second occurrence is written inline behind a separator terminal (two alias productions
+            // for one terminal are rejected by parol)
+            let tz = t("'z'", "z");
+            let names = ["INITIAL", "X", "Y"];
+            let pre = if *l2 == vec![0] { String::new() } else { format!("<{}>", l2.iter().map(|x| names[*x]).collect::<Vec<_>>().join(", ")) };
+            let mut m0 = ModeSpec::plain("INITIAL");
+            let mut m1 = ModeSpec::plain("X");
+            let mut m2 = ModeSpec::plain("Y");
+            m0.on.push((1, Switch::Enter(1)));
+            m1.on.push((1, Switch::Enter(2)));
+            m2.on.push((1, Switch::Enter(0)));
+            out.push(ScanCfg { terms: vec![ta, tb, tz], modes: vec![m0, m1, m2], lalr, raw_comment_literals: true, body: Some(format!("{{ T0 | T1 }} [ T2 {pre}'a' ]")) });
         }
     }
     // three states with nested push/pop; pop in INITIAL on an empty stack
@@ -385,7 +415,10 @@ fn eval_c13(case: &Case, tier: Tier, acc: &Acc) -> Vec<Violation> {
                 break;
             }
             // consumption schedules (only where there is something to schedule)
-            if k >= 2 && real.iter().filter(|t| !t.eff_skip).count() >= 2 && text.chars().count() <= case.n.saturating_sub(1).max(3) {
+            // (the repeated-occurrence family is about which rules a mode gets, not about delivery: the quick
+            // tier does not explore schedules on it)
+            let family_only_static = tier == Tier::Quick && case.cfg.terms.iter().any(|t| !t.more.is_empty());
+            if !family_only_static && k >= 2 && real.iter().filter(|t| !t.eff_skip).count() >= 2 && text.chars().count() <= case.n.saturating_sub(1).max(3) {
                 for s in schedules(k, sched_depth) {
                     acc.eval(1);
                     acc.count("schedules", 1);
@@ -569,6 +602,49 @@ fn eval_c14(case: &Case, acc: &Acc) -> Vec<Violation> {
         }
         if out.len() > 3 {
             break;
+        }
+    }
+    // one parser object used for two inputs in a row (also after a failed parse): the second run must
+    // deliver what a fresh parser delivers -- verdict and tree
+    if case.text.is_none() || case.reuse_first.is_some() {
+        let short: Vec<String> = match (&case.reuse_first, &case.text) {
+            (Some(_), Some(t)) => vec![t.clone()],
+            _ => texts_over(&case.alphabet, 2),
+        };
+        let firsts: Vec<String> = match &case.reuse_first {
+            Some(f) => vec![f.clone()],
+            None => short.clone(),
+        };
+        'reuse: for w2 in &short {
+            let Ok(fresh) = catch(|| bound.parse(w2, &RunOpts::default())) else { continue };
+            for w1 in &firsts {
+                acc.eval(1);
+                acc.count("parser_reuse_pairs", 1);
+                let Ok(mut both) = catch(|| bound.parse_reusing(&[w1.as_str(), w2.as_str()], &RunOpts::default())) else { continue };
+                let second = both.pop().unwrap();
+                let same_tree = match (&fresh.tree, &second.tree) {
+                    (Some(a), Some(b)) => {
+                        let (mut la, mut lb) = (vec![], vec![]);
+                        a.leaves(&mut la);
+                        b.leaves(&mut lb);
+                        la.iter().map(|t| (t.ty, t.start, t.end)).collect::<Vec<_>>() == lb.iter().map(|t| (t.ty, t.start, t.end)).collect::<Vec<_>>()
+                    }
+                    (None, None) => true,
+                    _ => false,
+                };
+                if fresh.ok != second.ok || !same_tree {
+                    let mut c = case.clone();
+                    c.reuse_first = Some(w1.clone());
+                    out.push(vio(
+                        "reused_parser_delivers_another_tree",
+                        format!("{} | text {:?} parsed after {:?} with the same parser object: ok={} (fresh parser: ok={}), tree leaves equal: {same_tree}", case.cfg.short(), w2, w1, second.ok, fresh.ok),
+                        &c,
+                        Some(w2),
+                        json!({"first": w1}),
+                    ));
+                    break 'reuse;
+                }
+            }
         }
     }
     if trees > 0 {
@@ -1215,10 +1291,10 @@ pub fn run(id: &str, tier: Tier, replay: Option<&str>) -> i32 {
             if tier == Tier::Thorough {
                 cfgs.extend(single_state_cfgs(2, true));
             }
-            let cases = cfgs.into_iter().map(|c| Case { cfg: c, alphabet: alphabet.clone(), n, text: None }).collect();
+            let cases = cfgs.into_iter().map(|c| Case { cfg: c, alphabet: alphabet.clone(), n, text: None, reuse_first: None }).collect();
             (
                 cases,
-                format!("scanner configurations: every ordered selection of 1..={} distinct terminals from a menu of 15 colliding patterns (raw/string/regex literals with equal texts, +, *, alternation, classes, positive and negative lookahead) plus two/three-state configurations for every combination of enter/push/pop (pop on an empty stack included), LL and LALR; x every text of length <= {n} over {{a, b, blank, newline, x}}; the tokens handed out by the real TokenStream (k=1) must equal the reference tokenizer (longest match, first declared on ties, lookahead honoured, state switches); the same tokens for k=2,3 and for every consumption schedule (per consume step one of: no lookahead, LA(0), LA(k-1), all ascending, all descending; first {} steps). Non-trivial = configurations on which >= 3 token kinds occur.", tier.pick(2, 3), tier.pick(3, 4)),
+                format!("scanner configurations: every ordered selection of 1..={} distinct terminals from a menu of 15 colliding patterns (raw/string/regex literals with equal texts, +, *, alternation, classes, positive and negative lookahead) plus two/three-state configurations for every combination of enter/push/pop (pop on an empty stack included) and three-state configurations in which one terminal occurs twice with different state lists (every ordered pair of distinct non-empty state lists), LL and LALR; x every text of length <= {n} over {{a, b, blank, newline, x}}; the tokens handed out by the real TokenStream (k=1) must equal the reference tokenizer (longest match, first declared on ties, lookahead honoured, state switches); the same tokens for k=2,3 and for every consumption schedule (per consume step one of: no lookahead, LA(0), LA(k-1), all ascending, all descending; first {} steps). Non-trivial = configurations on which >= 3 token kinds occur.", tier.pick(2, 3), tier.pick(3, 4)),
                 "model_checking",
                 json!({}),
             )
@@ -1226,7 +1302,7 @@ pub fn run(id: &str, tier: Tier, replay: Option<&str>) -> i32 {
         "C14" => {
             let n = tier.pick(4, 5);
             let alpha: Vec<String> = ["a", "b", " ", "\r", "\n", "é", "😀", "x"].iter().map(|s| s.to_string()).collect();
-            let cases = c14_cfgs(tier).into_iter().map(|c| Case { cfg: c, alphabet: alpha.clone(), n, text: None }).collect();
+            let cases = c14_cfgs(tier).into_iter().map(|c| Case { cfg: c, alphabet: alpha.clone(), n, text: None, reuse_first: None }).collect();
             (
                 cases,
                 format!("scanner configurations of the C13 menu (LL and LALR), each plain / with %allow_unmatched / with line and block comments / with %auto_newline_off / with %auto_ws_off; x every text of length <= {n} over {{a, b, blank, CR, LF, e-acute (2 bytes), an emoji (4 bytes), x}}; all tokens handed out (significant, skipped, comments, unmatched gaps) must be contiguous from 0 to the end of the input, carry exactly input[start..end], and report line/column = (1 + number of LF before, 1 + characters since the last LF) at both ends; for every successful parse the tree leaves must be exactly these tokens in order. Non-trivial = configurations with at least one successful parse compared."),
@@ -1236,7 +1312,7 @@ pub fn run(id: &str, tier: Tier, replay: Option<&str>) -> i32 {
         }
         "C15" => {
             let n = tier.pick(7, 9);
-            let cases = c15_cfgs(tier).into_iter().map(|(c, a)| Case { cfg: c, alphabet: a, n, text: None }).collect();
+            let cases = c15_cfgs(tier).into_iter().map(|(c, a)| Case { cfg: c, alphabet: a, n, text: None, reuse_first: None }).collect();
             (
                 cases,
                 format!("13 block-comment delimiter pairs covering every border structure of 1-3 character end delimiters (*/ *) }} -- --> aa aba aab abb **/ a ]] ##) and 4 line-comment markers, each written as raw and as escaped string literal, pairs of line-comment styles in both declaration orders, plus a mixed configuration; x every text of length <= {n} over the delimiter characters plus x (and line breaks for line comments); the delivered tokens must equal the reference in which a block comment runs from its start delimiter to the first following end delimiter and a line comment to the end of its line including the line break (lone CR reported as its own class). Non-trivial = configurations with at least one comment in the reference."),
@@ -1247,7 +1323,7 @@ pub fn run(id: &str, tier: Tier, replay: Option<&str>) -> i32 {
         "C16" => {
             let n = tier.pick(5, 6);
             let alpha: Vec<String> = ["a", "b", " ", "\t", "\n", "\r", "?", "é"].iter().map(|s| s.to_string()).collect();
-            let cases = c16_cfgs().into_iter().map(|c| Case { cfg: c, alphabet: alpha.clone(), n, text: None }).collect();
+            let cases = c16_cfgs().into_iter().map(|c| Case { cfg: c, alphabet: alpha.clone(), n, text: None, reuse_first: None }).collect();
             (
                 cases,
                 format!("all combinations of auto-newline on/off x auto-whitespace on/off x allow-unmatched on/off x three grammar bodies (any token sequence / exactly T0 T1 / T0 {{T1}}) x LL/LALR, plus two-state configurations with different allow-unmatched settings per state; x every text of length <= {n} over {{a, b, blank, tab, LF, CR, ?, e-acute}}; oracle: the reference tokenizer finds text no rule of a state without allow-unmatched matches => the parse must fail; otherwise the verdict must be the verdict of the matched tokens alone and allowed unmatched text must be a leaf of the tree. Non-trivial = configurations where both situations occur."),
